@@ -19,6 +19,24 @@
 //	    verifies under node_id, timestamp != 0 and strictly newer than the stored one
 //	anything else: graph unchanged, nothing relayed.
 //
+// The zombie index is graph state as well ("pathfinding trusts" that a pruned
+// channel stays away until its owner speaks up again):
+//
+//	an entry of the zombie index is removed (the channel may be announced again)
+//	    only by a channel_update whose signature verifies under the node owning
+//	    the update's direction bit, that is fresh (not older than the two-week
+//	    horizon the channel was pruned for, timestamp != 0, not more than two weeks
+//	    ahead) and whose signer is allowed to resurrect: either node normally; with
+//	    strict zombie pruning only the node whose own policy was the older (or
+//	    missing) one when the channel was pruned.
+//	an entry is added only by a prune tick (channels whose policies are both --
+//	    strict: either -- missing or older than two weeks) or by an announcement
+//	    that failed the funding check.
+//
+// restart (lnd stopped and started on the same database) changes nothing in the
+// graph or the zombie index; updates held in memory for a not-yet-known channel or
+// block are gone.
+//
 // Beyond validity the model keeps the bookkeeping needed to predict *later*
 // verdicts: updates held back for a channel that is not known yet (replayed when
 // its announcement is accepted), messages about blocks beyond the tip (replayed
@@ -42,6 +60,27 @@ import (
 )
 
 const c20FutureSkew = int64(14 * 24 * 3600)
+
+// c20ZombieHorizon: a policy older than this is stale (BOLT 7: two weeks).
+const c20ZombieHorizon = int64(14 * 24 * 3600)
+
+// c20StoreExtraLimit is the documented limit of the graph store for the extra
+// opaque data of one record (graphdb.MaxAllowedExtraOpaqueBytes): a message with
+// more may be dropped although it is authentic.
+const c20StoreExtraLimit = 10000
+
+// resurrection rights of a node
+const (
+	c20MayNot    = int8(0)
+	c20May       = int8(1)
+	c20MayEither = int8(2) // the statement does not decide (tie of the two policy timestamps)
+)
+
+// c20MZombie is an entry of the zombie index made by a prune tick.
+type c20MZombie struct {
+	n   [2][33]byte // the nodes owning direction 0 / 1 of the pruned channel
+	may [2]int8
+}
 
 type c20MChan struct {
 	scid           uint64
@@ -74,16 +113,37 @@ type c20Model struct {
 	suppressed map[uint64]string // scid -> why lnd will not look at it again
 	stash      map[uint64][]c20Held
 	deferred   []c20Held
+	zombies    map[uint64]*c20MZombie // entries made by prune ticks
+
+	// configuration
+	strict    bool // StrictZombiePruning
+	tinyCache bool // reject/channel cache of one entry
+
+	// provenance of lnd's in-memory caches (part of the explorer's key only, never
+	// of a verdict): how often lnd was restarted, which scids the gossip path has
+	// looked up in the store since the last restart, and the last one looked up
+	restarts int
+	warm     map[uint64]bool
+	last     uint64
 }
 
-func c20NewModel() *c20Model {
+func c20NewModel(cfg c20Cfg) *c20Model {
 	return &c20Model{tip: c20TipStart, chans: map[uint64]*c20MChan{}, nodes: map[[33]byte]*c20MNode{},
-		suppressed: map[uint64]string{}, stash: map[uint64][]c20Held{}}
+		suppressed: map[uint64]string{}, stash: map[uint64][]c20Held{}, zombies: map[uint64]*c20MZombie{},
+		warm: map[uint64]bool{}, strict: cfg.Strict, tinyCache: cfg.CacheSize == 1}
 }
 
 func (m *c20Model) clone() *c20Model {
-	c := c20NewModel()
+	c := c20NewModel(c20Cfg{})
 	c.tip = m.tip
+	c.strict, c.tinyCache, c.restarts, c.last = m.strict, m.tinyCache, m.restarts, m.last
+	for k, v := range m.zombies {
+		cp := *v
+		c.zombies[k] = &cp
+	}
+	for k := range m.warm {
+		c.warm[k] = true
+	}
 	for k, v := range m.chans {
 		cp := *v
 		c.chans[k] = &cp
@@ -157,8 +217,87 @@ func (m *c20Model) key() string {
 	}
 	sort.Strings(df)
 	fmt.Fprintf(&b, "\ndeferred=%v", df)
+	fmt.Fprintf(&b, "\nzombies=%v", m.zrender())
+	if m.restarts > 0 {
+		var wm []uint64
+		for s := range m.warm {
+			wm = append(wm, s)
+		}
+		sort.Slice(wm, func(i, j int) bool { return wm[i] < wm[j] })
+		fmt.Fprintf(&b, "\nrestarts=%d warm=%v", m.restarts, wm)
+	}
+	if m.tinyCache {
+		fmt.Fprintf(&b, "\nlast=%d", m.last)
+	}
 	h := sha256.Sum256([]byte(b.String()))
 	return fmt.Sprintf("%x", h[:12])
+}
+
+// zrender lists the zombie entries made by prune ticks, with the rights.
+func (m *c20Model) zrender() []string {
+	var z []string
+	for s, e := range m.zombies {
+		z = append(z, fmt.Sprintf("%d:may=%v", s, e.may))
+	}
+	sort.Strings(z)
+	return z
+}
+
+// zombiesConsistent compares the observed zombie index (restricted to the scids of
+// the universe) with the model: an entry made by a prune tick must be there; an
+// scid marked after a failed funding check may or may not be there (lnd uses the
+// zombie index or the closed-scid index, depending on the failure); nothing else
+// may be there. Returns "" or the first difference.
+func (m *c20Model) zombiesConsistent(observed []uint64) string {
+	obs := map[uint64]bool{}
+	for _, s := range observed {
+		obs[s] = true
+	}
+	for _, sc := range c20UniverseScids {
+		s := sc.ToUint64()
+		_, z := m.zombies[s]
+		_, sup := m.suppressed[s]
+		switch {
+		case z && !obs[s]:
+			return fmt.Sprintf("scid %d is missing from the zombie index", s)
+		case !z && !sup && obs[s]:
+			return fmt.Sprintf("scid %d is in the zombie index", s)
+		}
+	}
+	return ""
+}
+
+// zombieVerdict names the zombie-index clause that failed: the graph matches the
+// candidates cands of v, the zombie index matches none of them.
+func (m *c20Model) zombieVerdict(v *c20Verdict, cands []int, observed []uint64) (clause, what string) {
+	obs := map[uint64]bool{}
+	for _, s := range observed {
+		obs[s] = true
+	}
+	for _, sc := range c20UniverseScids {
+		s := sc.ToUint64()
+		_, was := m.zombies[s]
+		all, none := true, true
+		for _, i := range cands {
+			if _, z := v.After[i].zombies[s]; z {
+				none = false
+			} else {
+				all = false
+			}
+		}
+		_, sup := v.After[cands[0]].suppressed[s]
+		switch {
+		case was && all && !obs[s]:
+			return "zombie-resurrected-by-unauthorised-update", fmt.Sprintf("the zombie-index entry of channel %d was removed (the channel can be announced again), but the message is not a fresh update signed by the node owning its direction and allowed to resurrect the channel", s)
+		case was && none && obs[s]:
+			return "authorised-resurrection-refused", fmt.Sprintf("the update is fresh, signed by the node owning its direction, and that node is allowed to resurrect channel %d, but the zombie-index entry stayed", s)
+		case !was && all && !obs[s]:
+			return "pruned-channel-not-in-zombie-index", fmt.Sprintf("channel %d was pruned as a zombie but has no zombie-index entry", s)
+		case !was && none && !sup && obs[s]:
+			return "zombie-index-entry-added", fmt.Sprintf("a zombie-index entry for scid %d appeared, though no prune tick and no failed funding check explains it", s)
+		}
+	}
+	return "zombie-index-differs", v.After[cands[0]].zombiesConsistent(observed)
 }
 
 // ---------------------------------------------------------------------------
@@ -199,13 +338,38 @@ func (m *c20Model) unchanged(why string) *c20Verdict {
 func (m *c20Model) step(msg *c20Msg, now int64) *c20Verdict {
 	switch d := msg.Decoded.(type) {
 	case *lnwire.ChannelAnnouncement1:
-		return m.stepCA(msg, d, now)
+		v := m.stepCA(msg, d, now)
+		if d.ChainHash == c20MainChain && d.ShortChannelID.BlockHeight <= m.tip {
+			m.touched(v, d.ShortChannelID.ToUint64())
+		}
+		return v
 	case *lnwire.ChannelUpdate1:
-		return m.stepCU(msg, d, now)
+		v := m.stepCU(msg, d, now)
+		if d.ChainHash == c20MainChain && d.ShortChannelID.BlockHeight <= m.tip && d.Timestamp != 0 {
+			m.touched(v, d.ShortChannelID.ToUint64())
+		}
+		return v
 	case *lnwire.NodeAnnouncement1:
 		return m.stepNA(msg, d)
 	}
 	return m.unchanged("not-a-gossip-message")
+}
+
+// touched records in the successor states that the gossip path has looked scid up
+// in the store (cache provenance for the explorer's key; no verdict depends on it).
+func (m *c20Model) touched(v *c20Verdict, scid uint64) {
+	if m.restarts == 0 && !m.tinyCache {
+		return
+	}
+	for i, a := range v.After {
+		if a.warm[scid] && a.last == scid {
+			continue
+		}
+		c := a.clone()
+		c.warm[scid] = true
+		c.last = scid
+		v.After[i] = c
+	}
 }
 
 func (m *c20Model) stepCA(msg *c20Msg, a *lnwire.ChannelAnnouncement1, now int64) *c20Verdict {
@@ -221,6 +385,10 @@ func (m *c20Model) stepCA(msg *c20Msg, a *lnwire.ChannelAnnouncement1, now int64
 	}
 	if _, known := m.chans[scid]; known {
 		return m.unchanged("ca:duplicate")
+	}
+	if _, z := m.zombies[scid]; z {
+		// pruned for being stale: stays away until resurrected by an update
+		return m.unchanged("ca:zombie-channel")
 	}
 	w := msg.Wire
 	if len(w) < c20CAOff {
@@ -256,6 +424,9 @@ func (m *c20Model) stepCA(msg *c20Msg, a *lnwire.ChannelAnnouncement1, now int64
 	v := &c20Verdict{Valid: true, Why: "ca:valid"}
 	if why, sup := m.suppressed[scid]; sup {
 		v.Suppressed = "scid was marked after an earlier announcement failed the funding check (" + why + ")"
+	}
+	if len(a.ExtraOpaqueData) > c20StoreExtraLimit {
+		v.Suppressed = "extra opaque data above the graph store's documented limit"
 	}
 	n := m.clone()
 	n.chans[scid] = &c20MChan{scid: scid, n1: a.NodeID1, n2: a.NodeID2, b1: a.BitcoinKey1, b2: a.BitcoinKey2,
@@ -366,6 +537,9 @@ func (m *c20Model) stepCU(msg *c20Msg, u *lnwire.ChannelUpdate1, now int64) *c20
 		return m.unchanged("cu:zero-timestamp")
 	}
 	ch := m.chans[scid]
+	if z := m.zombies[scid]; z != nil && ch == nil {
+		return m.stepZombieCU(msg, u, z, now)
+	}
 	if ch == nil {
 		if _, sup := m.suppressed[scid]; sup {
 			return m.unchanged("cu:channel-failed-funding-check")
@@ -410,7 +584,131 @@ func (m *c20Model) stepCU(msg *c20Msg, u *lnwire.ChannelUpdate1, now int64) *c20
 	nc.pol[dir] = &c20MPol{ts: u.Timestamp, line: fmt.Sprintf("{ts=%d mf=%d cf=%d tld=%d min=%d max=%d base=%d rate=%d extra=%x sig=%x}",
 		u.Timestamp, u.MessageFlags, u.ChannelFlags, u.TimeLockDelta, u.HtlcMinimumMsat, u.HtlcMaximumMsat,
 		u.BaseFee, u.FeeRate, []byte(u.ExtraOpaqueData), w[2:8])}
-	return &c20Verdict{Valid: true, Why: "cu:valid", Finals: [][]string{n.render()}, After: []*c20Model{n}, Relayable: [][]byte{msg.Wire}}
+	v := &c20Verdict{Valid: true, Why: "cu:valid", Finals: [][]string{n.render()}, After: []*c20Model{n}, Relayable: [][]byte{msg.Wire}}
+	if len(u.ExtraOpaqueData) > c20StoreExtraLimit {
+		v.Suppressed = "extra opaque data above the graph store's documented limit"
+	}
+	return v
+}
+
+// stepZombieCU judges an update for a channel that a prune tick moved to the
+// zombie index. The routable graph never changes here; what may change is the
+// zombie index (the entry is removed: "resurrection") and lnd's memory (the
+// resurrecting update is held until the channel is announced again).
+func (m *c20Model) stepZombieCU(msg *c20Msg, u *lnwire.ChannelUpdate1, z *c20MZombie, now int64) *c20Verdict {
+	scid := u.ShortChannelID.ToUint64()
+	if now-int64(u.Timestamp) > c20ZombieHorizon {
+		return m.unchanged("cu:zombie,stale")
+	}
+	if int64(u.Timestamp)-now > c20FutureSkew {
+		return m.unchanged("cu:zombie,too-far-in-future")
+	}
+	dir := int(u.ChannelFlags & lnwire.ChanUpdateDirection)
+	w := msg.Wire
+	if len(w) < c20CUOff || !c20SigOK(w[2:66], z.n[dir], w[c20CUOff:]) {
+		return m.unchanged("cu:zombie,not-signed-by-the-node-owning-the-direction")
+	}
+	if z.may[dir] == c20MayNot {
+		return m.unchanged("cu:zombie,signer-not-allowed-to-resurrect")
+	}
+	n := m.clone()
+	delete(n.zombies, scid)
+	n.stash[scid] = append(n.stash[scid], c20Held{msg.ID, msg})
+	consistent := u.MessageFlags&lnwire.ChanUpdateRequiredMaxHtlc != 0 && u.HtlcMaximumMsat != 0 &&
+		u.HtlcMaximumMsat >= u.HtlcMinimumMsat
+	if z.may[dir] == c20MayEither || !consistent {
+		// the statement does not decide: both outcomes are acceptable
+		return &c20Verdict{Why: "cu:zombie,may-resurrect(undecided)", Finals: [][]string{n.render(), m.render()}, After: []*c20Model{n, m}}
+	}
+	return &c20Verdict{Why: "cu:zombie,resurrects(held)", Finals: [][]string{n.render()}, After: []*c20Model{n}}
+}
+
+// stepPrune is one tick of the zombie-prune ticker at (about) virtual time now.
+// Channels whose two policies are both (strict: either one) missing or older than
+// the horizon leave the graph and enter the zombie index, together with the nodes
+// left without a channel. A channel that counts as stale only because a policy was
+// never received (no stored policy is older than the horizon) MAY be pruned (BOLT 7
+// speaks of the timestamp of the latest channel_update): both outcomes are
+// acceptable for it.
+func (m *c20Model) stepPrune(now int64) *c20Verdict {
+	var must, may []uint64
+	for scid, ch := range m.chans {
+		var stale [2]bool
+		anyOld := false // a policy that is there and older than the horizon
+		for i := range ch.pol {
+			stale[i] = ch.pol[i] == nil || now-int64(ch.pol[i].ts) >= c20ZombieHorizon
+			anyOld = anyOld || (ch.pol[i] != nil && stale[i])
+		}
+		z := stale[0] && stale[1]
+		if m.strict {
+			z = stale[0] || stale[1]
+		}
+		switch {
+		case !z:
+		case !anyOld:
+			// stale only because a policy was never received: MAY be pruned
+			may = append(may, scid)
+		default:
+			must = append(must, scid)
+		}
+	}
+	sort.Slice(may, func(i, j int) bool { return may[i] < may[j] })
+	v := &c20Verdict{Why: fmt.Sprintf("prune(%d stale, %d stale-by-absence)", len(must), len(may))}
+	for mask := 0; mask < 1<<len(may); mask++ {
+		n := m.clone()
+		sel := append([]uint64{}, must...)
+		for i, s := range may {
+			if mask&(1<<i) != 0 {
+				sel = append(sel, s)
+			}
+		}
+		for _, scid := range sel {
+			ch := n.chans[scid]
+			e := &c20MZombie{n: [2][33]byte{ch.n1, ch.n2}, may: [2]int8{c20May, c20May}}
+			if m.strict {
+				p0, p1 := ch.pol[0], ch.pol[1]
+				switch {
+				case p0 == nil && p1 == nil:
+				case p0 == nil:
+					e.may = [2]int8{c20May, c20MayNot}
+				case p1 == nil:
+					e.may = [2]int8{c20MayNot, c20May}
+				case p0.ts < p1.ts:
+					e.may = [2]int8{c20May, c20MayNot}
+				case p1.ts < p0.ts:
+					e.may = [2]int8{c20MayNot, c20May}
+				default:
+					e.may = [2]int8{c20MayEither, c20MayEither}
+				}
+			}
+			n.zombies[scid] = e
+			delete(n.chans, scid)
+		}
+		// nodes without a channel leave the graph
+		used := map[[33]byte]bool{}
+		for _, ch := range n.chans {
+			used[ch.n1], used[ch.n2] = true, true
+		}
+		for id := range n.nodes {
+			if !used[id] {
+				delete(n.nodes, id)
+			}
+		}
+		v.Finals = append(v.Finals, n.render())
+		v.After = append(v.After, n)
+	}
+	return v
+}
+
+// stepRestart: the database survives; what lnd only held in memory is gone.
+func (m *c20Model) stepRestart() *c20Verdict {
+	n := m.clone()
+	n.stash = map[uint64][]c20Held{}
+	n.deferred = nil
+	n.restarts++
+	n.warm = map[uint64]bool{}
+	n.last = 0
+	return &c20Verdict{Why: "restart", Finals: [][]string{n.render()}, After: []*c20Model{n}}
 }
 
 func (m *c20Model) stepNA(msg *c20Msg, a *lnwire.NodeAnnouncement1) *c20Verdict {
